@@ -261,7 +261,10 @@ Proof.
     cbn [p_att]. lia.
 Qed.
 
-Lemma ack_through_spec f c ack now fj c' o e : ack_through f c ack now fj = (c', o, e) ->
+Lemma zlb_choice_le f now zd : zlb_choice f now zd <= now + f_zlb f.
+Proof. unfold zlb_choice. destruct zd as [d|]; [destruct (d <=? now + f_zlb f) eqn:E|]; lia. Qed.
+
+Lemma ack_through_spec f c ack now fj ig c' o e : ack_through f c ack now fj ig = (c', o, e) ->
   c_ns c' = c_ns c /\ c_nr c' = c_nr c /\ c_pw c' = c_pw c /\
   (exists popped rest, c_q c = popped ++ rest /\ map key (c_q c') = map key rest /\
      (forall p, In p popped -> seq_less (p_ns p) ack = true)) /\
@@ -272,6 +275,11 @@ Lemma ack_through_spec f c ack now fj c' o e : ack_through f c ack now fj = (c',
   (o = [] -> c_zlb c' = c_zlb c) /\ (o <> [] -> c_zlb c' = None).
 Proof.
   unfold ack_through.
+  destruct (ig && seq_less (c_ns c) ack).
+  { (* the acknowledgement is ignored: nothing changes *)
+    intros H; inversion H; subst; clear H. splits; auto using emits_ok_nil; try lia.
+    - eexists [], _. splits; [reflexivity|reflexivity|intros ? []].
+    - intros Hn; congruence. }
   destruct (ack_q ack (c_cwnd c) (c_ssth c) (c_pw c) (c_q c)) as [[q1 cw] pr] eqn:E.
   destruct (ack_q_spec _ _ _ _ _ _ _ _ E) as (pp & Hq & Hs & Hf & Ht).
   assert (Hcnt : count_inflight q1 <= count_inflight (c_q c)).
@@ -293,7 +301,7 @@ Proof.
     + intros Hn; congruence.
 Qed.
 
-Lemma recv_spec f c ns nr now fj c' o e h : recv f c ns nr now fj = (c', o, e, h) ->
+Lemma recv_spec f c ns nr now fj rc c' o e h : recv f c ns nr now fj rc = (c', o, e, h) ->
   h = (ns =? c_nr c) /\
   c_ns c' = c_ns c /\ c_nr c' = (if h then u16 (c_nr c + 1) else c_nr c) /\ c_pw c' = c_pw c /\
   (exists popped rest, c_q c = popped ++ rest /\ map key (c_q c') = map key rest /\
@@ -302,9 +310,9 @@ Lemma recv_spec f c ns nr now fj c' o e h : recv f c ns nr now fj = (c', o, e, h
   (c_cwnd c' = c_cwnd c \/ c_cwnd c' <= c_pw c) /\
   count_inflight (c_q c') <= Z.max (count_inflight (c_q c)) (c_cwnd c') /\
   (forall maxr, 1 <= maxr -> att_ok maxr (c_q c) -> att_ok maxr (c_q c')) /\
-  c_zlb c' = Some (now + f_zlb f).
+  c_zlb c' = Some (zlb_choice f now (r_zd rc)).
 Proof.
-  unfold recv. destruct (ack_through f c nr now fj) as [[c1 o1] e1] eqn:E.
+  unfold recv. destruct (ack_through f c nr now fj (r_ig rc)) as [[c1 o1] e1] eqn:E.
   apply ack_through_spec in E. destruct E as (A & B & C & Q & Em & Cw & Cn & At & _).
   destruct (negb (ns =? c_nr c1)) eqn:En; intros H; inversion H; subst; clear H;
     cbn [c_ns c_nr c_cwnd c_ssth c_pw c_q c_zlb]; rewrite B in En |- *.
@@ -495,7 +503,7 @@ Qed.
 
 (* ---- deliver (repaired dispatch rule) ---- *)
 (* what the repaired dispatch does to a channel, for data and ZLB alike *)
-Lemma dispatch_repaired_spec f c p now fj c' o e h : dispatch false f c p now fj = (c', o, e, h) ->
+Lemma dispatch_repaired_spec f c p now fj rc c' o e h : dispatch false f c p now fj rc = (c', o, e, h) ->
   c_ns c' = c_ns c /\
   (exists popped rest, c_q c = popped ++ rest /\ map key (c_q c') = map key rest /\
      (forall x, In x popped -> seq_less (p_ns x) (k_nr p) = true)) /\
@@ -507,16 +515,16 @@ Lemma dispatch_repaired_spec f c p now fj c' o e h : dispatch false f c p now fj
 Proof.
   unfold dispatch. destruct (k_body p) as [b|].
   - intros H. apply recv_spec in H. destruct H as (Hh & A & B & _ & Q & Em & _). splits; auto.
-  - destruct (ack_through f c (k_nr p) now fj) as [[c1 o1] e1] eqn:E. intros H; inversion H; subst; clear H.
+  - destruct (ack_through f c (k_nr p) now fj (r_ig rc)) as [[c1 o1] e1] eqn:E. intros H; inversion H; subst; clear H.
     apply ack_through_spec in E. destruct E as (A & B & _ & Q & Em & _). splits; auto.
 Qed.
 
-Lemma deliver_sender o S R pk now fj S' ob :
+Lemma deliver_sender o S R pk now fj rc S' ob :
   dir_inv o S R -> In pk (e_sent R) -> Z.of_nat (length (e_sub S)) < 32768 ->
-  ep_deliver false S pk now fj = (S', ob) -> dir_inv o S' R.
+  ep_deliver false S pk now fj rc = (S', ob) -> dir_inv o S' R.
 Proof.
   intros [Hns [pre Hq] Hnr [rest Hp] HsS HsR Hack Hbase] Hpk Hb H. unfold ep_deliver in H.
-  destruct (dispatch false (e_f S) (e_ch S) pk now fj) as [[[c' o'] er] h] eqn:E.
+  destruct (dispatch false (e_f S) (e_ch S) pk now fj rc) as [[[c' o'] er] h] eqn:E.
   inversion H; subst; clear H.
   apply dispatch_repaired_spec in E. destruct E as (A & (popped & rst & Q1 & Q2 & Q3) & Em & _).
   assert (Hl : length (c_q c') = length rst).
@@ -556,12 +564,12 @@ Proof.
     simpl in *. lia.
 Qed.
 
-Lemma deliver_receiver o S R pk now fj R' ob :
+Lemma deliver_receiver o S R pk now fj rc R' ob :
   dir_inv o S R -> In pk (e_sent S) -> Z.of_nat (length (e_sub S)) < 32768 ->
-  ep_deliver false R pk now fj = (R', ob) -> dir_inv o S R'.
+  ep_deliver false R pk now fj rc = (R', ob) -> dir_inv o S R'.
 Proof.
   intros [Hns Hq Hnr [rest Hp] HsS HsR Hack Hbase] Hpk Hb H. unfold ep_deliver in H.
-  destruct (dispatch false (e_f R) (e_ch R) pk now fj) as [[[c' o'] er] h] eqn:E.
+  destruct (dispatch false (e_f R) (e_ch R) pk now fj rc) as [[[c' o'] er] h] eqn:E.
   inversion H; subst; clear H.
   apply dispatch_repaired_spec in E. destruct E as (_ & _ & Em & Hbody).
   assert (Hdel : (length (e_del R) <= length (e_sub S))%nat).
@@ -606,8 +614,8 @@ Definition bounded (s : sys) : Prop :=
 
 Lemma ep_submit_sub e body sid now fj : e_sub (fst (ep_submit e body sid now fj)) = e_sub e ++ [body].
 Proof. unfold ep_submit. destruct (send_session _ _ _ _ _ _) as [[? ?] ?]; reflexivity. Qed.
-Lemma ep_deliver_sub z e p now fj : e_sub (fst (ep_deliver z e p now fj)) = e_sub e.
-Proof. unfold ep_deliver. destruct (dispatch _ _ _ _ _ _) as [[[? ?] ?] ?]; reflexivity. Qed.
+Lemma ep_deliver_sub z e p now fj rc : e_sub (fst (ep_deliver z e p now fj rc)) = e_sub e.
+Proof. unfold ep_deliver. destruct (dispatch _ _ _ _ _ _ _) as [[[? ?] ?] ?]; reflexivity. Qed.
 Lemma ep_tick_sub e now drops : e_sub (fst (ep_tick e now drops)) = e_sub e.
 Proof. unfold ep_tick. destruct (tick _ _ _) as [[[? ?] ?] ?]; reflexivity. Qed.
 Lemma ep_setwin_sub e w : e_sub (fst (ep_setwin e w)) = e_sub e.
@@ -624,14 +632,14 @@ Proof.
   assert (G : forall x e, (length (e_sub (ep s x)) <= length (e_sub e))%nat ->
               (length (e_sub (ep s y)) <= length (e_sub (ep (set_ep s x e) y)))%nat).
   { intros x e H. destruct x, y; simpl in *; auto. }
-  destruct ev as [x body sid now fj|x idx now fj|x p now fj|x now drops|x w]; unfold step.
+  destruct ev as [x body sid now fj|x idx now fj rc|x p now fj rc|x now drops|x w]; unfold step.
   - pose proof (ep_submit_sub (ep s x) body sid now fj) as E.
     destruct (ep_submit (ep s x) body sid now fj) as [e ob]. simpl in *. apply G. rewrite E, app_length. lia.
   - destruct (nth_error _ idx) as [p|]; [|simpl; lia].
-    pose proof (ep_deliver_sub z (ep s x) p now fj) as E.
-    destruct (ep_deliver z (ep s x) p now fj) as [e ob]. simpl in *. apply G. rewrite E. lia.
-  - pose proof (ep_deliver_sub z (ep s x) p now fj) as E.
-    destruct (ep_deliver z (ep s x) p now fj) as [e ob]. simpl in *. apply G. rewrite E. lia.
+    pose proof (ep_deliver_sub z (ep s x) p now fj rc) as E.
+    destruct (ep_deliver z (ep s x) p now fj rc) as [e ob]. simpl in *. apply G. rewrite E. lia.
+  - pose proof (ep_deliver_sub z (ep s x) p now fj rc) as E.
+    destruct (ep_deliver z (ep s x) p now fj rc) as [e ob]. simpl in *. apply G. rewrite E. lia.
   - pose proof (ep_tick_sub (ep s x) now drops) as E.
     destruct (ep_tick (ep s x) now drops) as [e ob]. simpl in *. apply G. rewrite E. lia.
   - simpl. apply G. simpl. lia.
@@ -648,12 +656,12 @@ Lemma step_inv oa ob s ev :
   sys_inv oa ob s -> is_inject ev = false -> bounded s -> sys_inv oa ob (fst (step false s ev)).
 Proof.
   intros [IA IB] Hh [BA BB].
-  destruct ev as [x body sid now fj|x idx now fj|x p now fj|x now drops|x w]; try discriminate; unfold step.
+  destruct ev as [x body sid now fj|x idx now fj rc|x p now fj rc|x now drops|x w]; try discriminate; unfold step.
   - destruct (ep_submit (ep s x) body sid now fj) as [e ob'] eqn:E. destruct x; simpl in *; split;
       eauto using submit_sender, submit_receiver.
   - destruct (nth_error (e_sent (ep s (peer x))) idx) as [p|] eqn:En; [|split; assumption].
     apply nth_error_In in En.
-    destruct (ep_deliver false (ep s x) p now fj) as [e ob'] eqn:E. destruct x; simpl in *; split;
+    destruct (ep_deliver false (ep s x) p now fj rc) as [e ob'] eqn:E. destruct x; simpl in *; split;
       eauto using deliver_sender, deliver_receiver.
   - destruct (ep_tick (ep s x) now drops) as [e ob'] eqn:E. destruct x; simpl in *; split;
       eauto using tick_sender, tick_receiver.
@@ -728,20 +736,20 @@ Proof.
   constructor; ep_simpl; auto; try lia.
 Qed.
 
-Lemma deliver_ok z e p now fj : ep_ok e -> ep_ok (fst (ep_deliver z e p now fj)).
+Lemma deliver_ok z e p now fj rc : ep_ok e -> ep_ok (fst (ep_deliver z e p now fj rc)).
 Proof.
   intros [M W C P I A]. unfold ep_deliver.
-  destruct (dispatch z (e_f e) (e_ch e) p now fj) as [[[c' o] er] h] eqn:E. simpl.
+  destruct (dispatch z (e_f e) (e_ch e) p now fj rc) as [[[c' o] er] h] eqn:E. simpl.
   assert (G : c_pw c' = c_pw (e_ch e) /\
               (c_cwnd c' = c_cwnd (e_ch e) \/ c_cwnd c' <= c_pw (e_ch e)) /\
               count_inflight (c_q c') <= Z.max (count_inflight (c_q (e_ch e))) (c_cwnd c') /\
               (forall maxr, 1 <= maxr -> att_ok maxr (c_q (e_ch e)) -> att_ok maxr (c_q c'))).
   { unfold dispatch in E. destruct (k_body p); [|destruct z].
     - apply recv_spec in E. destruct E as (_ & _ & _ & Pw & _ & _ & Cw & Cn & At & _). auto.
-    - destruct (recv (e_f e) (e_ch e) (k_ns p) (k_nr p) now fj) as [[[c1 o1] e1] h1] eqn:E1.
+    - destruct (recv (e_f e) (e_ch e) (k_ns p) (k_nr p) now fj rc) as [[[c1 o1] e1] h1] eqn:E1.
       inversion E; subst. apply recv_spec in E1.
       destruct E1 as (_ & _ & _ & Pw & _ & _ & Cw & Cn & At & _). auto.
-    - destruct (ack_through (e_f e) (e_ch e) (k_nr p) now fj) as [[c1 o1] e1] eqn:E1.
+    - destruct (ack_through (e_f e) (e_ch e) (k_nr p) now fj (r_ig rc)) as [[c1 o1] e1] eqn:E1.
       inversion E; subst. apply ack_through_spec in E1.
       destruct E1 as (_ & _ & Pw & _ & _ & Cw & Cn & At & _). auto. }
   destruct G as (Pw & Cw & Cn & At).
@@ -772,14 +780,14 @@ Proof.
   assert (G : forall x e, ep_ok e -> sys_ok (set_ep s x e)).
   { intros x e H. destruct x; split; simpl; auto. }
   assert (Hx : forall x, ep_ok (ep s x)) by (intros []; assumption).
-  destruct ev as [x body sid now fj|x idx now fj|x p now fj|x now drops|x w]; unfold step.
+  destruct ev as [x body sid now fj|x idx now fj rc|x p now fj rc|x now drops|x w]; unfold step.
   - pose proof (submit_ok _ body sid now fj (Hx x)).
     destruct (ep_submit (ep s x) body sid now fj); simpl in *; auto.
   - destruct (nth_error _ idx) as [p|]; [|split; assumption].
-    pose proof (deliver_ok z _ p now fj (Hx x)).
-    destruct (ep_deliver z (ep s x) p now fj); simpl in *; auto.
-  - pose proof (deliver_ok z _ p now fj (Hx x)).
-    destruct (ep_deliver z (ep s x) p now fj); simpl in *; auto.
+    pose proof (deliver_ok z _ p now fj rc (Hx x)).
+    destruct (ep_deliver z (ep s x) p now fj rc); simpl in *; auto.
+  - pose proof (deliver_ok z _ p now fj rc (Hx x)).
+    destruct (ep_deliver z (ep s x) p now fj rc); simpl in *; auto.
   - pose proof (tick_ok _ now drops (Hx x)).
     destruct (ep_tick (ep s x) now drops); simpl in *; auto.
   - pose proof (setwin_ok _ w (Hx x)). simpl in *; auto.
@@ -819,11 +827,11 @@ Proof.
   intros H.
   assert (G : forall x e, e_wmax e = e_wmax (ep s x) -> e_wmax (ep (set_ep s x e) y) = e_wmax (ep s y)).
   { intros x e E. destruct x, y; simpl in *; auto. }
-  destruct ev as [x body sid now fj|x idx now fj|x p now fj|x now drops|x w]; try discriminate; unfold step.
+  destruct ev as [x body sid now fj|x idx now fj rc|x p now fj rc|x now drops|x w]; try discriminate; unfold step.
   - unfold ep_submit. destruct (send_session _ _ _ _ _ _) as [[? ?] ?]; simpl. apply G; reflexivity.
   - destruct (nth_error _ idx) as [p|]; [|reflexivity].
-    unfold ep_deliver. destruct (dispatch _ _ _ _ _ _) as [[[? ?] ?] ?]; simpl. apply G; reflexivity.
-  - unfold ep_deliver. destruct (dispatch _ _ _ _ _ _) as [[[? ?] ?] ?]; simpl. apply G; reflexivity.
+    unfold ep_deliver. destruct (dispatch _ _ _ _ _ _ _) as [[[? ?] ?] ?]; simpl. apply G; reflexivity.
+  - unfold ep_deliver. destruct (dispatch _ _ _ _ _ _ _) as [[[? ?] ?] ?]; simpl. apply G; reflexivity.
   - unfold ep_tick. destruct (tick _ _ _) as [[[? ?] ?] ?]; simpl. apply G; reflexivity.
 Qed.
 
@@ -888,20 +896,20 @@ Proof.
   unfold ack_ok; ep_simpl. apply ack_ok_same; auto. intros p Hp. apply (Em p Hp).
 Qed.
 
-Lemma deliver_ack z nr0 e p now fj : ack_ok nr0 e -> ack_ok nr0 (fst (ep_deliver z e p now fj)).
+Lemma deliver_ack z nr0 e p now fj rc : ack_ok nr0 e -> ack_ok nr0 (fst (ep_deliver z e p now fj rc)).
 Proof.
   intros H. unfold ep_deliver.
-  destruct (dispatch z (e_f e) (e_ch e) p now fj) as [[[c' o] er] h] eqn:E. simpl.
+  destruct (dispatch z (e_f e) (e_ch e) p now fj rc) as [[[c' o] er] h] eqn:E. simpl.
   unfold ack_ok; ep_simpl.
-  assert (R : forall c1 o1 e1 h1, recv (e_f e) (e_ch e) (k_ns p) (k_nr p) now fj = (c1, o1, e1, h1) ->
+  assert (R : forall c1 o1 e1 h1, recv (e_f e) (e_ch e) (k_ns p) (k_nr p) now fj rc = (c1, o1, e1, h1) ->
               c_zlb c1 <> None).
   { intros c1 o1 e1 h1 E1. apply recv_spec in E1.
     destruct E1 as (_ & _ & _ & _ & _ & _ & _ & _ & _ & Zl). rewrite Zl; discriminate. }
   unfold dispatch in E. destruct (k_body p); [|destruct z].
   - right. eapply R; eauto.
-  - destruct (recv (e_f e) (e_ch e) (k_ns p) (k_nr p) now fj) as [[[c1 o1] e1] h1] eqn:E1.
+  - destruct (recv (e_f e) (e_ch e) (k_ns p) (k_nr p) now fj rc) as [[[c1 o1] e1] h1] eqn:E1.
     inversion E; subst. right. eapply R; eauto.
-  - destruct (ack_through (e_f e) (e_ch e) (k_nr p) now fj) as [[c1 o1] e1] eqn:E1.
+  - destruct (ack_through (e_f e) (e_ch e) (k_nr p) now fj (r_ig rc)) as [[c1 o1] e1] eqn:E1.
     inversion E; subst. apply ack_through_spec in E1.
     destruct E1 as (_ & B & _ & _ & Em & _ & _ & _ & Z1 & _).
     apply ack_ok_same; auto. intros x Hx. apply (Em x Hx).
@@ -937,14 +945,14 @@ Proof.
   assert (G : forall x e, ack_ok (nrx x) e ->
               ack_ok na (s_a (set_ep s x e)) /\ ack_ok nb (s_b (set_ep s x e))).
   { intros x e H. destruct x; split; simpl; auto. }
-  destruct ev as [x body sid now fj|x idx now fj|x p now fj|x now drops|x w]; unfold step.
+  destruct ev as [x body sid now fj|x idx now fj rc|x p now fj rc|x now drops|x w]; unfold step.
   - pose proof (submit_ack _ _ body sid now fj (Hx x)).
     destruct (ep_submit (ep s x) body sid now fj); simpl in *; auto.
   - destruct (nth_error _ idx) as [p|]; [|split; assumption].
-    pose proof (deliver_ack z _ _ p now fj (Hx x)).
-    destruct (ep_deliver z (ep s x) p now fj); simpl in *; auto.
-  - pose proof (deliver_ack z _ _ p now fj (Hx x)).
-    destruct (ep_deliver z (ep s x) p now fj); simpl in *; auto.
+    pose proof (deliver_ack z _ _ p now fj rc (Hx x)).
+    destruct (ep_deliver z (ep s x) p now fj rc); simpl in *; auto.
+  - pose proof (deliver_ack z _ _ p now fj rc (Hx x)).
+    destruct (ep_deliver z (ep s x) p now fj rc); simpl in *; auto.
   - destruct drops; [|discriminate]. pose proof (tick_ack _ _ now (Hx x)).
     destruct (ep_tick (ep s x) now []); simpl in *; auto.
   - pose proof (setwin_ack _ _ w (Hx x)). simpl in *; auto.
@@ -1018,8 +1026,8 @@ Qed.
 
 (* ================= historical: the dispatch rule before 96f9f16 violated exactly-once ================= *)
 Definition witness : list event :=
-  [ Submit SA 100 0 0 None; Deliver SB 0 10 None; Tick SB 100 []; Deliver SA 0 110 None;
-    Submit SB 200 0 120 None; Deliver SA 1 130 None; Tick SA 400 []; Deliver SB 1 410 None ].
+  [ Submit SA 100 0 0 None; Deliver SB 0 10 None head_choice; Tick SB 100 []; Deliver SA 0 110 None head_choice;
+    Submit SB 200 0 120 None; Deliver SA 1 130 None head_choice; Tick SA 400 []; Deliver SB 1 410 None head_choice ].
 Definition witness_cfg : Z * Z * Z * Z * Z := (100, 400, 3, 50, 2).
 
 Lemma pre_96f9f16_rule_loses_message :
@@ -1038,10 +1046,10 @@ Proof. vm_compute. splits; reflexivity. Qed.
 Definition wrap_run : list event :=
   [ Submit SA 100 0 0 None; Submit SA 101 0 5 None;          (* Ns 65535 and 0; window 1: only the first goes out *)
     Tick SA 150 [];                                   (* first copy "lost": retransmit *)
-    Deliver SB 1 160 None; Deliver SB 1 165 None;            (* the retransmission arrives twice *)
-    Tick SB 300 []; Deliver SA 0 310 None;                 (* B's ZLB acknowledges; A sends 101 *)
-    Deliver SB 2 320 None; Deliver SB 0 330 None;            (* 101 arrives; the delayed first copy of 100 arrives last *)
-    Submit SB 200 7 340 None; Deliver SA 1 350 None ].
+    Deliver SB 1 160 None head_choice; Deliver SB 1 165 None head_choice;            (* the retransmission arrives twice *)
+    Tick SB 300 []; Deliver SA 0 310 None head_choice;                 (* B's ZLB acknowledges; A sends 101 *)
+    Deliver SB 2 320 None head_choice; Deliver SB 0 330 None head_choice;            (* 101 arrives; the delayed first copy of 100 arrives last *)
+    Submit SB 200 7 340 None; Deliver SA 1 350 None head_choice ].
 Lemma wrap_run_ok :
   let s := run false (init_sys (100, 400, 3, 50, 1) (100, 400, 3, 50, 1) 65535 32767) wrap_run in
   honest wrap_run = true /\
@@ -1051,11 +1059,13 @@ Proof. vm_compute. splits; reflexivity. Qed.
 
 (* every real (non-ZLB) message that reaches the channel arms the ZLB timer, whether it is accepted,
    a duplicate or from the future, under both dispatch rules *)
-Lemma data_arms_ack z f c p b now fj c' o e h :
-  k_body p = Some b -> dispatch z f c p now fj = (c', o, e, h) -> c_zlb c' = Some (now + f_zlb f).
+Lemma data_arms_ack z f c p b now fj rc c' o e h :
+  k_body p = Some b -> dispatch z f c p now fj rc = (c', o, e, h) ->
+  exists d, c_zlb c' = Some d /\ d <= now + f_zlb f.
 Proof.
   intros Hb H. unfold dispatch in H. rewrite Hb in H. apply recv_spec in H.
-  destruct H as (_ & _ & _ & _ & _ & _ & _ & _ & _ & Z1). exact Z1.
+  destruct H as (_ & _ & _ & _ & _ & _ & _ & _ & _ & Z1).
+  exists (zlb_choice f now (r_zd rc)). split; [exact Z1|apply zlb_choice_le].
 Qed.
 
 (* ---- bounded retransmission: an unacknowledged message kills the tunnel after MaxRetries expiries ---- *)
@@ -1109,7 +1119,7 @@ Proof. vm_compute. splits; try reflexivity. eexists; eexists; splits; reflexivit
    left afterwards already carries the current Nr *)
 Definition acked_since (f : conf) (now : Z) (old : list pkt) (e : endpoint) : Prop :=
   exists new, e_sent e = old ++ new /\
-    (c_zlb (e_ch e) = Some (now + f_zlb f) \/
+    ((exists d, c_zlb (e_ch e) = Some d /\ d <= now + f_zlb f) \/
      (new <> [] /\ forall d, last_nr d new = c_nr (e_ch e))).
 
 Lemma ep_submit_acked f now old e body sid fj :
@@ -1159,7 +1169,7 @@ Lemma ep_flush_acked f now old e : acked_since f now old e -> flushed_since old 
 Proof.
   intros (new & Hs & H). destruct (ep_flush_spec e) as (Nr & _ & Z0 & _ & _ & _ & _ & S).
   split; [exact Z0|]. destruct S as [[Hz Se]|[Hz Se]].
-  - destruct H as [H|[Hn Hl]]; [congruence|]. exists new. rewrite Se, Nr. auto.
+  - destruct H as [(d0 & H & _)|[Hn Hl]]; [congruence|]. exists new. rewrite Se, Nr. auto.
   - exists (new ++ [mkK None 0 (c_ns (e_ch e)) (c_nr (e_ch e))]).
     rewrite Se, Hs, app_assoc. splits; auto.
     + destruct new; discriminate.
@@ -1180,8 +1190,8 @@ Lemma dispatch_acks_everything n m now b :
 Proof.
   intros Hk Ht Hb. unfold node_dispatch. rewrite Hk, Ht. cbn [andb].
   unfold ep_deliver.
-  destruct (dispatch false (e_f (n_ep n)) (e_ch (n_ep n)) (m_pkt m) now None) as [[[c' o] er] h] eqn:E.
-  pose proof (data_arms_ack _ _ _ _ _ _ _ _ _ _ _ Hb E) as Hz.
+  destruct (dispatch false (e_f (n_ep n)) (e_ch (n_ep n)) (m_pkt m) now None (m_rc m)) as [[[c' o] er] h] eqn:E.
+  pose proof (data_arms_ack _ _ _ _ _ _ _ _ _ _ _ _ Hb E) as Hz.
   unfold dispatch in E. rewrite Hb in E. apply recv_spec in E.
   destruct E as (Hh & _ & Hnr & _).
   set (e1 := mkE (e_f (n_ep n)) c' (e_sent (n_ep n) ++ o) (e_sub (n_ep n))
@@ -1212,15 +1222,15 @@ Proof.
   intros H. unfold node_dispatch. destruct (n_known n && m_tid_ok m) eqn:Ek; [|reflexivity].
   destruct H as [H|H]; [discriminate|].
   unfold ep_deliver.
-  destruct (dispatch false (e_f (n_ep n)) (e_ch (n_ep n)) (m_pkt m) now None) as [[[c' o] er] h] eqn:E.
+  destruct (dispatch false (e_f (n_ep n)) (e_ch (n_ep n)) (m_pkt m) now None (m_rc m)) as [[[c' o] er] h] eqn:E.
   apply dispatch_repaired_spec in E. rewrite H in E. destruct E as (_ & _ & _ & Hh & Hn).
   subst h. cbn [n_ep e_ch]. exact Hn.
 Qed.
 
 (* the owed acknowledgement is sent by the next Tick at/after the deadline *)
 Definition full_msgs : list nevent :=
-  [ NMsg (mkM true (mkK (Some 1) 0 0 0) [] false) 0; NTick 90;       (* first delivery *)
-    NMsg (mkM true (mkK (Some 1) 5 0 0) [(7, 0)] true) 0; NTick 90 ]. (* retransmission: acknowledged again *)
+  [ NMsg (mkM head_choice true (mkK (Some 1) 0 0 0) [] false) 0; NTick 90;       (* first delivery *)
+    NMsg (mkM head_choice true (mkK (Some 1) 5 0 0) [(7, 0)] true) 0; NTick 90 ]. (* retransmission: acknowledged again *)
 Lemma full_example :
   let n0 := mkN true (new_endpoint 120 240 5 60 16 0 0) in
   map (fun p => (k_body p, k_nr p)) (e_sent (n_ep (node_run n0 full_msgs))) = [(None, 1); (None, 1)].
@@ -1277,10 +1287,10 @@ Qed.
 (* ---- the two progress steps of the fair-loss argument ---- *)
 (* (1) if ANY ONE transmission of the message at the head of S's queue reaches R, that message has been
        handed to R's machine (now or earlier) *)
-Lemma head_delivery_progress o S R p r pk b now fj R' ob :
+Lemma head_delivery_progress o S R p r pk b now fj rc R' ob :
   dir_inv o S R -> Z.of_nat (length (e_sub S)) < 32768 -> e_dead S = 0%nat ->
   c_q (e_ch S) = p :: r -> k_body pk = Some b -> k_ns pk = p_ns p ->
-  ep_deliver false R pk now fj = (R', ob) ->
+  ep_deliver false R pk now fj rc = (R', ob) ->
   (length (e_sub S) - length (c_q (e_ch S)) < length (e_del R'))%nat.
 Proof.
   intros I Hb Hd Hq Hbody Hns H.
@@ -1293,7 +1303,7 @@ Proof.
     { rewrite Hst, nth_error_app2, Nat.sub_diag, Hq by lia. reflexivity. }
     apply stamped_nth in N. destruct N as [N _]. exact N. }
   unfold ep_deliver in H.
-  destruct (dispatch false (e_f R) (e_ch R) pk now fj) as [[[c' o'] er] h] eqn:E.
+  destruct (dispatch false (e_f R) (e_ch R) pk now fj rc) as [[[c' o'] er] h] eqn:E.
   inversion H; subst; clear H. ep_simpl.
   apply dispatch_repaired_spec in E. destruct E as (_ & _ & _ & Hx). rewrite Hbody in Hx |- *.
   destruct Hx as [Hh _].
@@ -1307,16 +1317,16 @@ Qed.
 
 (* (2) once it has been handed over, ANY ONE packet R sends from then on (all carry R's current Nr) that
        reaches S removes the message from S's queue *)
-Lemma head_ack_progress o S R p r pk now fj S' ob :
+Lemma head_ack_progress o S R p r pk now fj rc S' ob :
   dir_inv o S R -> Z.of_nat (length (e_sub S)) < 32768 ->
   c_q (e_ch S) = p :: r -> 0 < p_att p ->
   (length (e_sub S) - length (c_q (e_ch S)) < length (e_del R))%nat ->
   k_nr pk = c_nr (e_ch R) ->
-  ep_deliver false S pk now fj = (S', ob) ->
+  ep_deliver false S pk now fj rc = (S', ob) ->
   (length (c_q (e_ch S')) < length (c_q (e_ch S)))%nat.
 Proof.
   intros I Hb Hq Ha Hlt Hnr H.
-  destruct I as [_ [pre Hst] HnrR [rest Hp] _ _ _ _].
+  destruct I as [HnsS [pre Hst] HnrR [rest Hp] _ _ _ _].
   assert (Hlp : length (e_sub S) = (length pre + length (c_q (e_ch S)))%nat).
   { rewrite <- (stamped_length o (e_sub S) 0), Hst, app_length, map_length; reflexivity. }
   assert (Hhead : p_ns p = u16 (o + Z.of_nat (length pre))).
@@ -1326,12 +1336,16 @@ Proof.
   assert (Hdel : (length (e_del R) <= length (e_sub S))%nat) by (rewrite Hp, app_length; lia).
   assert (Hless : seq_less (p_ns p) (k_nr pk) = true).
   { rewrite Hhead, Hnr, HnrR, seq_less_window by lia. lia. }
+  (* R's Nr is never ahead of S's own Ns: the "ignore an Nr from the future" choice cannot apply *)
+  assert (Hnotahead : seq_less (c_ns (e_ch S)) (k_nr pk) = false).
+  { rewrite HnsS, Hnr, HnrR, seq_less_window by lia. lia. }
   unfold ep_deliver in H.
-  destruct (dispatch false (e_f S) (e_ch S) pk now fj) as [[[c' o'] er] h] eqn:E.
+  destruct (dispatch false (e_f S) (e_ch S) pk now fj rc) as [[[c' o'] er] h] eqn:E.
   inversion H; subst; clear H. ep_simpl.
-  assert (G : forall f c1 o1 e1, ack_through f (e_ch S) (k_nr pk) now fj = (c1, o1, e1) ->
+  assert (G : forall f c1 o1 e1, ack_through f (e_ch S) (k_nr pk) now fj (r_ig rc) = (c1, o1, e1) ->
               (length (c_q c1) < length (c_q (e_ch S)))%nat).
-  { intros f c1 o1 e1 E1. unfold ack_through in E1. rewrite Hq in E1 |- *. cbn [ack_q] in E1.
+  { intros f c1 o1 e1 E1. unfold ack_through in E1. rewrite Hnotahead, andb_false_r in E1.
+    rewrite Hq in E1 |- *. cbn [ack_q] in E1.
     assert (p_att p =? 0 = false) as Hz by lia. rewrite Hz, Hless in E1.
     match type of E1 with context [ack_q ?a ?cw ?ss ?pw r] =>
       destruct (ack_q a cw ss pw r) as [[q1 cw1] pr1] eqn:E2 end.
@@ -1340,9 +1354,9 @@ Proof.
     assert (length (c_q c1) = length q1) by (rewrite <- (map_length key), K, map_length; reflexivity).
     cbn [length]. rewrite Hr, app_length. lia. }
   unfold dispatch in E. destruct (k_body pk).
-  - unfold recv in E. destruct (ack_through (e_f S) (e_ch S) (k_nr pk) now fj) as [[c1 o1] e1] eqn:E1.
+  - unfold recv in E. destruct (ack_through (e_f S) (e_ch S) (k_nr pk) now fj (r_ig rc)) as [[c1 o1] e1] eqn:E1.
     pose proof (G _ _ _ _ E1). destruct (negb (k_ns pk =? c_nr c1)); inversion E; subst; cbn [c_q]; assumption.
-  - destruct (ack_through (e_f S) (e_ch S) (k_nr pk) now fj) as [[c1 o1] e1] eqn:E1.
+  - destruct (ack_through (e_f S) (e_ch S) (k_nr pk) now fj (r_ig rc)) as [[c1 o1] e1] eqn:E1.
     pose proof (G _ _ _ _ E1). inversion E; subst. assumption.
 Qed.
 
@@ -1357,15 +1371,15 @@ Proof.
   apply send_session_spec in E. destruct E as (_ & _ & Pw & _). congruence.
 Qed.
 
-Lemma deliver_win z W e p now fj : win_ok W e -> win_ok W (fst (ep_deliver z e p now fj)).
+Lemma deliver_win z W e p now fj rc : win_ok W e -> win_ok W (fst (ep_deliver z e p now fj rc)).
 Proof.
   intros [O M P]. constructor; [apply deliver_ok; exact O| |]; unfold ep_deliver;
-    destruct (dispatch z (e_f e) (e_ch e) p now fj) as [[[c' o] er] h] eqn:E; cbn [fst]; ep_simpl; auto.
+    destruct (dispatch z (e_f e) (e_ch e) p now fj rc) as [[[c' o] er] h] eqn:E; cbn [fst]; ep_simpl; auto.
   unfold dispatch in E. destruct (k_body p); [|destruct z].
   - apply recv_spec in E. destruct E as (_ & _ & _ & Pw & _). congruence.
-  - destruct (recv (e_f e) (e_ch e) (k_ns p) (k_nr p) now fj) as [[[c1 o1] e1] h1] eqn:E1.
+  - destruct (recv (e_f e) (e_ch e) (k_ns p) (k_nr p) now fj rc) as [[[c1 o1] e1] h1] eqn:E1.
     inversion E; subst. apply recv_spec in E1. destruct E1 as (_ & _ & _ & Pw & _). congruence.
-  - destruct (ack_through (e_f e) (e_ch e) (k_nr p) now fj) as [[c1 o1] e1] eqn:E1.
+  - destruct (ack_through (e_f e) (e_ch e) (k_nr p) now fj (r_ig rc)) as [[c1 o1] e1] eqn:E1.
     inversion E; subst. apply ack_through_spec in E1. destruct E1 as (_ & _ & Pw & _). congruence.
 Qed.
 
@@ -1391,8 +1405,8 @@ Proof.
   2: { destruct (n_known n); cbn [n_ep]; [apply tick_win; exact H|exact H]. }
   2: { destruct (n_known n); cbn [n_ep]; [apply submit_win; exact H|exact H]. }
   unfold node_dispatch. destruct (n_known n && m_tid_ok m); [|exact H].
-  pose proof (deliver_win false W _ (m_pkt m) now None H) as D.
-  destruct (ep_deliver false (n_ep n) (m_pkt m) now None) as [e1 ob]. cbn [fst] in D.
+  pose proof (deliver_win false W _ (m_pkt m) now None (m_rc m) H) as D.
+  destruct (ep_deliver false (n_ep n) (m_pkt m) now None (m_rc m)) as [e1 ob]. cbn [fst] in D.
   destruct ob as [| |h o er| |]; cbn [n_ep]; auto. destruct h; cbn [n_ep]; auto.
   destruct (m_removes m); auto using submits_win, flush_win.
 Qed.
@@ -1432,7 +1446,7 @@ Qed.
 (* the window is really reached: peer advertises 2, acknowledges two of our messages, then sends four
    requests whose replies it does not acknowledge: exactly 2 replies are outstanding, 2 wait in the queue *)
 Definition win_msgs : list nevent :=
-  let m ns nr rep := NMsg (mkM true (mkK (Some 1) 0 ns nr) rep false) 0 in
+  let m ns nr rep := NMsg (mkM head_choice true (mkK (Some 1) 0 ns nr) rep false) 0 in
   [ m 0 0 [(1, 0)]; m 1 1 []; m 2 1 [(2, 0)]; m 3 2 [(3, 0)];
     m 4 3 [(4, 0)]; m 5 3 [(5, 0)]; m 6 3 [(6, 0)]; m 7 3 [(7, 0)] ].
 Lemma window_reached :
@@ -1535,9 +1549,10 @@ Proof.
   specialize (IH _ G Hp). destruct (ack_q ack (grow_cwnd cwnd ssth pw) ssth pw r) as [[q1 cw] pr]. simpl in *. exact IH.
 Qed.
 
-Lemma ack_through_live f c ack now fj : live c -> live (fst (fst (ack_through f c ack now fj))).
+Lemma ack_through_live f c ack now fj ig : live c -> live (fst (fst (ack_through f c ack now fj ig))).
 Proof.
   intros [Hs Hh Hc Hp]. unfold ack_through.
+  destruct (ig && seq_less (c_ns c) ack); [simpl; constructor; auto|].
   pose proof (ack_q_cwnd_ge ack (c_ssth c) (c_pw c) (c_q c) (c_cwnd c) Hc Hp) as Hcw.
   destruct (ack_q ack (c_cwnd c) (c_ssth c) (c_pw c) (c_q c)) as [[q1 cw] pr] eqn:E.
   destruct (ack_q_spec _ _ _ _ _ _ _ _ E) as (pp & Hq & _ & Hf & _). simpl in Hcw.
@@ -1546,20 +1561,20 @@ Proof.
   - destruct (Hf eq_refl) as [-> ->]. simpl in Hq. subst q1. simpl. constructor; simpl; auto.
 Qed.
 
-Lemma recv_live f c ns nr now fj : live c -> live (fst (fst (fst (recv f c ns nr now fj)))).
+Lemma recv_live f c ns nr now fj rc : live c -> live (fst (fst (fst (recv f c ns nr now fj rc)))).
 Proof.
-  intros H. unfold recv. pose proof (ack_through_live f c nr now fj H) as [A B C D].
-  destruct (ack_through f c nr now fj) as [[c1 o] e]. simpl in *.
+  intros H. unfold recv. pose proof (ack_through_live f c nr now fj (r_ig rc) H) as [A B C D].
+  destruct (ack_through f c nr now fj (r_ig rc)) as [[c1 o] e]. simpl in *.
   destruct (negb (ns =? c_nr c1)); simpl; constructor; simpl; auto.
 Qed.
 
-Lemma dispatch_live z f c p now fj : live c -> live (fst (fst (fst (dispatch z f c p now fj)))).
+Lemma dispatch_live z f c p now fj rc : live c -> live (fst (fst (fst (dispatch z f c p now fj rc)))).
 Proof.
   intros H. unfold dispatch. destruct (k_body p); [apply recv_live; exact H|]. destruct z.
-  - pose proof (recv_live f c (k_ns p) (k_nr p) now fj H).
-    destruct (recv f c (k_ns p) (k_nr p) now fj) as [[[c' o] e] h]. exact H0.
-  - pose proof (ack_through_live f c (k_nr p) now fj H).
-    destruct (ack_through f c (k_nr p) now fj) as [[c' o] e]. exact H0.
+  - pose proof (recv_live f c (k_ns p) (k_nr p) now fj rc H).
+    destruct (recv f c (k_ns p) (k_nr p) now fj rc) as [[[c' o] e] h]. exact H0.
+  - pose proof (ack_through_live f c (k_nr p) now fj (r_ig rc) H).
+    destruct (ack_through f c (k_nr p) now fj (r_ig rc)) as [[c' o] e]. exact H0.
 Qed.
 
 Lemma send_session_live f c body sid now fj : live c -> live (fst (fst (send_session f c body sid now fj))).
@@ -1635,14 +1650,14 @@ Proof.
   assert (G : forall x e, live (e_ch e) -> sys_live (set_ep s x e)).
   { intros x e H. destruct x; split; simpl; auto. }
   assert (Hx : forall x, live (e_ch (ep s x))) by (intros []; assumption).
-  destruct ev as [x body sid now fj|x idx now fj|x p now fj|x now drops|x w]; unfold step.
+  destruct ev as [x body sid now fj|x idx now fj rc|x p now fj rc|x now drops|x w]; unfold step.
   - unfold ep_submit. pose proof (send_session_live (e_f (ep s x)) _ body sid now fj (Hx x)).
     destruct (send_session (e_f (ep s x)) (e_ch (ep s x)) body sid now fj) as [[c' o] er]. simpl in *. auto.
   - destruct (nth_error _ idx) as [p|]; [|split; assumption].
-    unfold ep_deliver. pose proof (dispatch_live z (e_f (ep s x)) _ p now fj (Hx x)).
-    destruct (dispatch z (e_f (ep s x)) (e_ch (ep s x)) p now fj) as [[[c' o] er] h]. simpl in *. auto.
-  - unfold ep_deliver. pose proof (dispatch_live z (e_f (ep s x)) _ p now fj (Hx x)).
-    destruct (dispatch z (e_f (ep s x)) (e_ch (ep s x)) p now fj) as [[[c' o] er] h]. simpl in *. auto.
+    unfold ep_deliver. pose proof (dispatch_live z (e_f (ep s x)) _ p now fj rc (Hx x)).
+    destruct (dispatch z (e_f (ep s x)) (e_ch (ep s x)) p now fj rc) as [[[c' o] er] h]. simpl in *. auto.
+  - unfold ep_deliver. pose proof (dispatch_live z (e_f (ep s x)) _ p now fj rc (Hx x)).
+    destruct (dispatch z (e_f (ep s x)) (e_ch (ep s x)) p now fj rc) as [[[c' o] er] h]. simpl in *. auto.
   - unfold ep_tick. pose proof (tick_live (e_f (ep s x)) _ now (Hx x)).
     destruct (tick (e_f (ep s x)) (e_ch (ep s x)) now) as [[[c' o] d] ret]. simpl in *. auto.
   - simpl. apply G. simpl. apply set_peer_window_live. apply Hx.
@@ -1676,13 +1691,13 @@ Proof.
 Qed.
 
 (* ---- the runner's timer never parks and reaches every armed ZLB deadline ---- *)
-Lemma runner_next_bounds ret now :
-  now < runner_next ret now /\
+Lemma runner_next_bounds poll ret now : 0 < poll ->
+  now < runner_next poll ret now /\
   match ret with
-  | None => runner_next ret now = now + 500
-  | Some t => runner_next ret now = Z.max t (now + 50)
+  | None => runner_next poll ret now = now + poll
+  | Some t => runner_next poll ret now = Z.max t (now + 50)
   end.
-Proof. unfold runner_next. destruct ret as [t|]; [destruct (t - now <? 50) eqn:E|]; lia. Qed.
+Proof. intros Hp. unfold runner_next. destruct ret as [t|]; [destruct (t - now <? 50) eqn:E|]; lia. Qed.
 
 (* a Tick before the ZLB deadline keeps the timer armed and tells the runner to come back no later than it *)
 Lemma tick_before_zlb f c now d c' o ret :
@@ -1703,20 +1718,20 @@ Qed.
    and the runner's next Tick is at t2 with t1 + 50 <= t2 <= max d (t1+50): the Ticks advance by at least
    50 ms and never jump past d by more than 50 ms, so one of them is at or after d within d + 50 and sends the
    acknowledgement (C16_tick_sends_owed_ack) unless a message sent in between already carried it *)
-Lemma runner_reaches_zlb f c t1 d c' o ret :
-  c_zlb c = Some d -> t1 < d -> tick f c t1 = (c', o, false, ret) ->
-  let t2 := runner_next ret t1 in
+Lemma runner_reaches_zlb poll f c t1 d c' o ret :
+  0 < poll -> c_zlb c = Some d -> t1 < d -> tick f c t1 = (c', o, false, ret) ->
+  let t2 := runner_next poll ret t1 in
   t1 + 50 <= t2 <= Z.max d (t1 + 50) /\ c_zlb c' = Some d.
 Proof.
-  intros Hz Hlt H. destruct (tick_before_zlb _ _ _ _ _ _ _ Hz Hlt H) as (Z1 & _ & r & -> & Hr).
-  cbv zeta. destruct (runner_next_bounds (Some r) t1) as [_ E]. rewrite E. split; [lia|exact Z1].
+  intros Hp Hz Hlt H. destruct (tick_before_zlb _ _ _ _ _ _ _ Hz Hlt H) as (Z1 & _ & r & -> & Hr).
+  cbv zeta. destruct (runner_next_bounds poll (Some r) t1 Hp) as [_ E]. rewrite E. split; [lia|exact Z1].
 Qed.
 
 (* an in-order StopCCN (handler unregisters the tunnel) is acknowledged in the very step that accepts it,
    with no Tick at all; a later Tick event does nothing (the runner is gone) *)
 Definition stop_msgs : list nevent :=
-  [ NMsg (mkM true (mkK (Some 1) 0 0 0) [(7, 0)] false) 0;      (* SCCRQ-like, answered *)
-    NMsg (mkM true (mkK (Some 4) 0 1 1) [] true) 5;              (* StopCCN *)
+  [ NMsg (mkM head_choice true (mkK (Some 1) 0 0 0) [(7, 0)] false) 0;      (* SCCRQ-like, answered *)
+    NMsg (mkM head_choice true (mkK (Some 4) 0 1 1) [] true) 5;              (* StopCCN *)
     NTick 500 ].
 Lemma stop_example :
   let n := node_run (mkN true (new_endpoint 0 0 0 0 16 0 0)) stop_msgs in
@@ -1786,23 +1801,23 @@ Qed.
 Definition keeps_head (g : chan -> chan) : Prop :=
   forall c p r, c_q c = p :: r -> 1 <= p_att p -> exists r', c_q (g c) = p :: r'.
 
-Fixpoint runner_dead (f : conf) (g : nat -> chan -> chan) (c : chan) (t : Z) (fuel : nat) : option Z :=
+Fixpoint runner_dead (poll : Z) (f : conf) (g : nat -> chan -> chan) (c : chan) (t : Z) (fuel : nat) : option Z :=
   match fuel with
   | O => None
   | S k => let '(c', _, d, ret) := tick f c t in
-           if d then Some t else runner_dead f g (g k c') (runner_next ret t) k
+           if d then Some t else runner_dead poll f g (g k c') (runner_next poll ret t) k
   end.
 
 Definition rstep (f : conf) : Z := Z.max (f_rto_max f) 50 + 50.
 
-Lemma dead_under_runner f g : (forall k, keeps_head (g k)) ->
+Lemma dead_under_runner poll f g : 0 < poll -> (forall k, keeps_head (g k)) ->
   forall fuel c t p r,
   c_q c = p :: r -> 1 <= p_att p <= f_maxr f ->
   Z.max t (p_dl p + 50) + (f_maxr f - p_att p) * rstep f - t < Z.of_nat fuel * 50 ->
-  exists td, runner_dead f g c t fuel = Some td /\
+  exists td, runner_dead poll f g c t fuel = Some td /\
              t <= td <= Z.max t (p_dl p + 50) + (f_maxr f - p_att p) * rstep f.
 Proof.
-  intros Hg. unfold rstep.
+  intros Hpoll Hg. unfold rstep.
   induction fuel as [|k IH]; intros c t p r Hq Ha Hf.
   - exfalso. simpl in Hf. nia.
   - cbn [runner_dead].
@@ -1811,12 +1826,12 @@ Proof.
     + exists t. split; [reflexivity|]. nia.
     + assert (Hp' : 1 <= p_att p') by (destruct Hcase as [[_ ->]|(_ & Ea & _)]; lia).
       destruct (Hg k c' p' r' Hq' Hp') as (r'' & Hq'').
-      destruct (runner_next_bounds (Some rr) t) as [_ Hn].
-      assert (Hstep : t + 50 <= runner_next (Some rr) t <= Z.max (p_dl p') (t + 50)) by (rewrite Hn; lia).
+      destruct (runner_next_bounds poll (Some rr) t Hpoll) as [_ Hn].
+      assert (Hstep : t + 50 <= runner_next poll (Some rr) t <= Z.max (p_dl p') (t + 50)) by (rewrite Hn; lia).
       destruct Hcase as [[Hlt ->]|(Hge & Hatt & Hmax & Hdl)].
-      * destruct (IH (g k c') (runner_next (Some rr) t) p r'' Hq'' Ha) as (td & Htd & Hb); [nia|].
+      * destruct (IH (g k c') (runner_next poll (Some rr) t) p r'' Hq'' Ha) as (td & Htd & Hb); [nia|].
         exists td. split; [exact Htd|]. nia.
-      * destruct (IH (g k c') (runner_next (Some rr) t) p' r'' Hq'' ltac:(lia)) as (td & Htd & Hb).
+      * destruct (IH (g k c') (runner_next poll (Some rr) t) p' r'' Hq'' ltac:(lia)) as (td & Htd & Hb).
         { rewrite Hatt. nia. }
         exists td. split; [exact Htd|]. rewrite Hatt in Hb. nia.
 Qed.
@@ -1832,18 +1847,21 @@ Proof.
   cbn. eexists; reflexivity.
 Qed.
 
-Lemma recv_keeps_head f ns nr now fj :
+Lemma recv_keeps_head f ns nr now fj rc :
   forall c p r, c_q c = p :: r -> 1 <= p_att p -> seq_less (p_ns p) nr = false ->
-  exists r', c_q (fst (fst (fst (recv f c ns nr now fj)))) = p :: r'.
+  exists r', c_q (fst (fst (fst (recv f c ns nr now fj rc)))) = p :: r'.
 Proof.
-  intros c p r Hq Ha Hs. unfold recv, ack_through. rewrite Hq. cbn [ack_q].
-  assert (p_att p =? 0 = false) as -> by lia. rewrite Hs. cbn.
-  destruct (negb (ns =? c_nr c)); cbn; eexists; reflexivity.
+  intros c p r Hq Ha Hs. unfold recv, ack_through.
+  destruct (r_ig rc && seq_less (c_ns c) nr).
+  - destruct (negb (ns =? c_nr c)); cbn; rewrite Hq; eexists; reflexivity.
+  - rewrite Hq. cbn [ack_q].
+    assert (p_att p =? 0 = false) as -> by lia. rewrite Hs. cbn.
+    destruct (negb (ns =? c_nr c)); cbn; eexists; reflexivity.
 Qed.
 
 Lemma runner_dead_example :
-  runner_dead ex_conf (fun _ c => c) ex_chan 100 30 = Some 700 /\
-  runner_dead ex_conf (fun k c => fst (fst (send_session ex_conf c (Z.of_nat k) 0 0 None))) ex_chan 100 30 = Some 700.
+  runner_dead 500 ex_conf (fun _ c => c) ex_chan 100 30 = Some 700 /\
+  runner_dead 500 ex_conf (fun k c => fst (fst (send_session ex_conf c (Z.of_nat k) 0 0 None))) ex_chan 100 30 = Some 700.
 Proof. vm_compute. split; reflexivity. Qed.
 
 Lemma reachable_inv ai am ar az aw bi bm br bz bw oa ob evs :
@@ -1864,9 +1882,9 @@ Proof. vm_compute. splits; reflexivity. Qed.
 
 (* a Tick before the ZLB deadline: armed at 250, Tick at 200 reports 250, the runner comes back at 250 *)
 Lemma runner_zlb_example :
-  let c := fst (fst (fst (recv ex_conf (new_chan 1) 0 0 200 None))) in
+  let c := fst (fst (fst (recv ex_conf (new_chan 1) 0 0 200 None head_choice))) in
   c_zlb c = Some 250 /\
-  (let '(c', o, d, ret) := tick ex_conf c 200 in o = [] /\ d = false /\ ret = Some 250 /\ runner_next ret 200 = 250) /\
+  (let '(c', o, d, ret) := tick ex_conf c 200 in o = [] /\ d = false /\ ret = Some 250 /\ runner_next 500 ret 200 = 250) /\
   (let '(c', o, d, ret) := tick ex_conf c 250 in map k_nr o = [1] /\ c_zlb c' = None).
 Proof. vm_compute. splits; reflexivity. Qed.
 
@@ -1885,3 +1903,23 @@ Qed.
 
 Lemma sccrq_twice_without_linger : conn_opens false CNone [CSccrq; COther; CTeardown; CSccrq] = 2%nat.
 Proof. reflexivity. Qed.
+
+(* ================= the implementation's free choices ================= *)
+(* between honest endpoints an Nr is never ahead of the receiver's own next Ns: the r_ig choice only ever matters
+   for forged packets *)
+Lemma honest_ack_never_ahead o S R pk :
+  dir_inv o S R -> Z.of_nat (length (e_sub S)) < 32768 -> In pk (e_sent R) ->
+  seq_less (c_ns (e_ch S)) (k_nr pk) = false.
+Proof.
+  intros [Hns _ _ [rest Hp] _ HsR _ _] Hb Hin.
+  destruct (HsR pk Hin) as (k & Hk & ->). rewrite Hns.
+  assert ((length (e_del R) <= length (e_sub S))%nat) by (rewrite Hp, app_length; lia).
+  rewrite seq_less_window by lia. lia.
+Qed.
+
+(* both delayed-acknowledgement policies seen so far are admissible choices: re-arm at now + zlbDelay (r_zd = None),
+   and keep an earlier pending deadline *)
+Lemma zlb_policies_admissible f now prev :
+  zlb_choice f now None = now + f_zlb f /\
+  zlb_choice f now (Some (Z.min prev (now + f_zlb f))) = Z.min prev (now + f_zlb f).
+Proof. unfold zlb_choice. split; [reflexivity|]. destruct (Z.min prev (now + f_zlb f) <=? now + f_zlb f) eqn:E; lia. Qed.
